@@ -238,3 +238,92 @@ func VerifH_C08_AgeingAllSections() {
 		verifrt.Assert(got[i] >= lb && got[i] <= ub, "every section's TTL is reduced by exactly the whole seconds elapsed (floor 1)")
 	}
 }
+
+// vTypedRecord: a record of one of the kinds the codec knows, with an arbitrary TTL and arbitrary numeric RDATA fields
+// (an SOA's serial/refresh/retry/expire/MINIMUM, an MX preference, SRV priority/weight/port): values a cache policy
+// might be tempted to look at.
+func vTypedRecord(tag string, kind int) (dnsmsg.Resource, uint32) {
+	ttl := verifrt.U32(tag + ".ttl")
+	owner := vName(tag+".owner", vShapes[1])
+	var rr dnsmsg.Resource
+	switch kind {
+	case 0:
+		s := dnsmsg.NewSOA()
+		s.NS, s.MBox = vName(tag+".ns", vShapes[1]), vName(tag+".mbox", vShapes[1])
+		s.Serial, s.Refresh, s.Retry, s.Expire, s.MinTTL = verifrt.U32(tag+".serial"), verifrt.U32(tag+".refresh"), verifrt.U32(tag+".retry"), verifrt.U32(tag+".expire"), verifrt.U32(tag+".minimum")
+		s.Type = dnsmsg.TypeSOA
+		rr = s
+	case 1:
+		n := dnsmsg.NewNAME()
+		n.NameData = vName(tag+".target", vShapes[1])
+		n.Type = []dnsmsg.Type{dnsmsg.TypeNS, dnsmsg.TypeCNAME, dnsmsg.TypePTR}[verifrt.Choose(tag+".nametype", 3)]
+		rr = n
+	case 2:
+		m := dnsmsg.NewMX()
+		m.Pref, m.MX = verifrt.U16(tag+".pref"), vName(tag+".mx", vShapes[1])
+		m.Type = dnsmsg.TypeMX
+		rr = m
+	case 3:
+		s := dnsmsg.NewSRV()
+		s.Priority, s.Weight, s.Port, s.Target = verifrt.U16(tag+".prio"), verifrt.U16(tag+".weight"), verifrt.U16(tag+".port"), vName(tag+".target", vShapes[1])
+		s.Type = dnsmsg.TypeSRV
+		rr = s
+	case 4:
+		a := dnsmsg.NewAAAA()
+		copy(a.AAAA[:], verifrt.BytesN(tag+".aaaa", 16))
+		a.Type = dnsmsg.TypeAAAA
+		rr = a
+	default:
+		r := vRawFixed(tag+".raw", dnsmsg.Type(99), 0, 2)
+		rr = r
+	}
+	h := rr.Hdr()
+	h.Name, h.Class, h.TTL = owner, 1, ttl
+	return rr, ttl
+}
+
+// VerifH_C08_StorePolicyRecordKinds: the lifetime is the smallest RECORD TTL whatever the records are and wherever
+// they sit: responses with no answer but records in the authority / additional section (NODATA or NXDOMAIN with an
+// SOA, referrals with NS + glue), answers of every record kind the codec knows (SOA, NS/CNAME/PTR, MX, SRV, AAAA,
+// unknown type) with arbitrary RDATA numbers (an SOA MINIMUM above or below its TTL), any rcode, any maximum.
+func VerifH_C08_StorePolicyRecordKinds_S6() {
+	verifrt.Unwind(60)
+	kind := verifrt.Shard()
+	r := vRouter(nil, true)
+	c := r.cache
+	maxSec := verifrt.U32("maxttl")
+	verifrt.Assume(maxSec >= 1)
+	c.maximumTtl = time.Duration(maxSec) * time.Second
+	m := dnsmsg.NewMsg()
+	m.Header.Response = true
+	m.Header.RCode = dnsmsg.RCode(verifrt.U16("rcode") & 0xF)
+	q := dnsmsg.NewQuestion()
+	q.Name = vName("qname", vShapes[1])
+	q.Type, q.Class = 1, 1
+	m.Questions = append(m.Questions, q)
+	rr, t0 := vTypedRecord("r0", kind)
+	ttls := []uint32{t0}
+	switch verifrt.Choose("r0.section", 3) {
+	case 0:
+		m.Answers = append(m.Answers, rr)
+	case 1:
+		m.Authorities = append(m.Authorities, rr)
+	default:
+		m.Additionals = append(m.Additionals, rr)
+	}
+	if verifrt.Bool("second") {
+		a := vA("r1")
+		ttls = append(ttls, a.TTL)
+		if verifrt.Bool("r1.in-answer") {
+			m.Answers = append(m.Answers, a)
+		} else {
+			m.Additionals = append(m.Additionals, a)
+		}
+	}
+	c.Store(q, netip.Addr{}, m)
+	v, stored, expire := c.memory.Get(cacheKey(q, ""))
+	verifrt.Reach("stored")
+	verifrt.Assert(v != nil, "a complete response is cached")
+	want := refLifetime(m.Header.RCode, ttls, maxSec)
+	verifrt.Assert(expire.Sub(stored) == time.Duration(want)*time.Second, "cache lifetime = smallest record TTL of the message (capped), whatever the record kinds, sections and RDATA values")
+}
